@@ -19,7 +19,7 @@ theorem alloc_step (P : Params) (w : W) (op : Op) (h : AllocOK w.tabs w.sm) :
     split
     · cases hop : w.sm.apply P.kw o with
       | none => exact h
-      | some st' => exact allocOK_grow w.tabs st'
+      | some st' => exact allocOK_grow w.tabs st' h.slots
     · exact h
   | eval q n key => simp only [step]; split <;> exact h
   | setValue q n key v => simp only [step]; split <;> exact h
@@ -27,17 +27,46 @@ theorem alloc_step (P : Params) (w : W) (op : Op) (h : AllocOK w.tabs w.sm) :
   | clear q n => exact h
   | clearAll q n => exact h
 
+theorem slots_step (P : Params) (w : W) (op : Op) : (step P w op).tabs.slots = w.tabs.slots := by
+  cases op with
+  | struct o =>
+    simp only [step]
+    split
+    · cases hop : w.sm.apply P.kw o with
+      | none => rfl
+      | some st' => rfl
+    · rfl
+  | eval q n key => simp only [step]; split <;> rfl
+  | setValue q n key v => simp only [step]; split <;> rfl
+  | clearAt q n key => rfl
+  | clear q n => rfl
+  | clearAll q n => rfl
+
+theorem slots_run (P : Params) : ∀ (ops : List Op) (w : W), (run P w ops).tabs.slots = w.tabs.slots := by
+  intro ops
+  induction ops with
+  | nil => intro w; rfl
+  | cons op rest ih =>
+    intro w
+    show (run P (step P w op) rest).tabs.slots = _
+    rw [ih, slots_step]
+
+/-- no attribute slot declared: every name is a plain name -/
+theorem qualOf_none_of_no_slots (t : Tabs) (h : t.slots = []) (q : Path) (x : String) : qualOf t q x = none := by
+  simp [qualOf, h]
+
 theorem admissible_of_sources (P : Params) (lt : Node → Node → Prop)
     (hnc : ∀ v key, NsNoCatch (P.srcOf v key)) (hsc : ∀ v key, NsScoped (P.srcOf v key))
     (hcalls : ∀ v key, NsNoCalls (P.srcOf v key)) :
-    ∀ (ops : List Op) (w : W), AllocOK w.tabs w.sm → Admissible P lt w ops := by
+    ∀ (ops : List Op) (w : W), AllocOK w.tabs w.sm → w.tabs.slots = [] → Admissible P lt w ops := by
   intro ops
   induction ops with
-  | nil => intro w _; trivial
+  | nil => intro w _ _; trivial
   | cons op rest ih =>
-    intro w ha
+    intro w ha hs
     have ha' := alloc_step P w op ha
-    exact ⟨wf_envOf P _ _ lt ha' hnc hsc (ranked_envOf_noCalls P _ _ lt hcalls), ih _ ha'⟩
+    have hs' : (step P w op).tabs.slots = [] := by rw [slots_step, hs]
+    exact ⟨wf_envOf P _ _ lt ha' hs' hnc hsc (ranked_envOf_noCalls P _ _ lt hcalls), ih _ ha' hs'⟩
 
 /-! ## the example -/
 
@@ -92,7 +121,7 @@ theorem eP_noCalls (v : Nat) (key : Key) : NsNoCalls (eP.srcOf v key) := by
 
 /-- every history over the example's sources is admissible -/
 theorem eP_admissible (ops : List Op) : Admissible eP idLt {} ops :=
-  admissible_of_sources eP idLt eP_noCatch eP_scoped eP_noCalls ops {} allocOK_empty
+  admissible_of_sources eP idLt eP_noCatch eP_scoped eP_noCalls ops {} allocOK_empty rfl
 
 theorem eOps_admissible : Admissible eP idLt {} eOps := eP_admissible eOps
 
